@@ -53,9 +53,17 @@ def run(R):
         for _ in range(1500 if quick else 20000):
             n = rng.choice([2, 2, 3])
             secs = [section(rng, P, b"file%d.txt" % i) for i in range(n)]
-            fill = lambda: b"".join(rng.choice(INERT) + b"\n" for _ in range(rng.randint(0, 3)))
+            # a normal diff names no file: two of them in a row are one patch for one file, not two sections
+            if any(secs[i][2] == "normal" and secs[i + 1][2] == "normal" for i in range(n - 1)):
+                continue
+            def fill(after=None):
+                ls = [rng.choice(INERT) for _ in range(rng.randint(0, 3))]
+                # directly after a context diff a line starting with "  " / "+ " / "! " reads as a line of its last hunk
+                if after == "context" and ls and ls[0][:2] in (b"  ", b"+ ", b"! "):
+                    ls = ls[1:] if len(ls) > 1 and ls[1][:2] not in (b"  ", b"+ ", b"! ") else []
+                return b"".join(l + b"\n" for l in ls)
             plain = b"".join(t for _, t, _ in secs)
-            filled = fill() + b"".join(t + fill() for _, t, _ in secs)
+            filled = fill() + b"".join(t + fill(f) for f, t, _ in secs)
             g = {"secs": secs, "singles": [], "plain": f"parseall {gen.hexb(plain)} unknown -1", "filled": f"parseall {gen.hexb(filled)} unknown -1",
                  "explicit": [], "auto": []}
             for f, t, k in secs:
